@@ -61,6 +61,9 @@ def run(tier, seed):
     po_b = proof_obligations("WowVerif.Thm.C02b")      # expect_any / expect_stream: the typed helpers asked for any type
     add_proof_failures(rep, po_b)
     po = dict(po, theorems=dict(po["theorems"], **po_b["theorems"]), obligations=po["obligations"] + po_b["obligations"], discharged=po["discharged"] + po_b["discharged"])
+    po_c = proof_obligations("WowVerif.Thm.C02c")      # sessions: framing around the body codec (session, aligned, session_code)
+    add_proof_failures(rep, po_c)
+    po = dict(po, theorems=dict(po["theorems"], **po_c["theorems"]), obligations=po["obligations"] + po_c["obligations"], discharged=po["discharged"] + po_c["discharged"])
     drv = driver_path()
     # ---- T-gen: constants the model shares with the code
     consts_seen = {}
@@ -166,6 +169,68 @@ def run(tier, seed):
                           {"input": rq, "implementation": h, "expected": want, "model": a, "replay_cmd": f"echo '{rq}' | {har}"})
         elif a != h:
             rep.violation(f"C02/correspondence/{exp}-{d}/stream-{api}", f"model and implementation differ on '{rq[:100]}'", {"request": rq, "model": a, "implementation": h}, no_input=True)
+    # ---- sessions (Model/Session.lean, Thm/C02c.lean): one stream of ARBITRARY messages of the corpus — canonical values generated by the Lean
+    # semantics, frames with opcodes outside the table, frames whose body does not parse — written by the model, read by the model's
+    # `readMsg` and by the library's opcode-enum reader until the stream ends; names, positions and the final position must agree, every
+    # decoded message must be written back as the bytes it was read from, and reading must go on after an unknown opcode / a bad body
+    sys.path.insert(0, os.path.join(os.path.dirname(__file__), "..", "tools"))
+    sys.path.insert(0, os.path.dirname(__file__))
+    import semcorr as sc_, c01 as c01_
+    srng = SplitMix64(seed ^ 0x5E55)
+    all_conts = sc_.build_corpus()
+    conts = [c for c in all_conts if "tokens" in c and c["lib"] != "login" and "prim" not in c["tokens"]
+             and not c01_.has_flag_elseif(c["tokens"]) and not c01_.endless_after_if(c["tokens"])]
+    sreq, smeta2 = [], []
+    for exp in EXPS:
+        for d in DIRS:
+            kinds = ("cmsg", "msg") if d == "client" else ("smsg", "msg")
+            pool_ = [c for c in conts if c["lib"] == exp and c["kind"] in kinds]
+            all_ops = {c["opcode"] for c in all_conts if c["lib"] == exp and c["kind"] in kinds}
+            for _ in range(8 if tier == "quick" else 80):
+                items = []
+                for _k in range(2 + srng.below(10)):
+                    r_ = srng.below(10)
+                    c = pool_[srng.below(len(pool_))]
+                    if r_ < 7:
+                        items.append(f"g:{c['key']}:{srng.below(1 << 40)}:{(0, 1, 3, 6)[srng.below(4)]}")
+                    elif r_ < 8:
+                        op = 0x5000 + srng.below(0x1000)
+                        while op in all_ops:
+                            op += 1
+                        items.append(f"u:{op}:{srng.below(40)}")
+                    else:
+                        items.append(f"x:{c['key']}:{srng.bytes(srng.below(14)).hex() or '-'}")
+                sreq.append(f"session {exp} {d} {','.join(items)}")
+                smeta2.append((exp, d))
+    dsess = sc_.Driver()
+    so = dsess.ask_many(sreq)
+    dsess.close()
+    hs_req = []
+    for (exp, d), rq, o in zip(smeta2, sreq, so):
+        hs_req.append(f"mstream {exp} {d} {o.split()[0]}" if o.split() and o.split()[0] != "bad-item" and len(o.split()) > 1 else "noop")
+    hs_out = run_parallel(har, hs_req, jobs=12)
+    n_sess_ok = n_sess_msgs = n_sess_unknown = n_sess_bad = 0
+    for (exp, d), rq, o, hq, h in zip(smeta2, sreq, so, hs_req, hs_out):
+        if hq == "noop":
+            rep.violation(f"C02/session/model/{exp}-{d}", f"the model cannot build the session '{rq[:200]}': {o[:100]}", {"request": rq, "model": o[:300]}, no_input=True)
+            continue
+        want = o.split(" ", 1)[1]
+        # frames over arbitrary body bytes (`x:` items): the library's readers accept surplus bytes inside a variable-size body (no property
+        # forbids that), the specification decoder does not — for those frames only the POSITION after the frame is compared (alignment)
+        kinds_ = [it.split(":")[0] for it in rq.split(" ", 3)[3].split(",")]
+        def _norm(line):
+            toks = line.split()
+            if len(toks) != len(kinds_) + 2:
+                return line
+            return " ".join([toks[0]] + [("x@" + t.rsplit("@", 1)[1]) if k_ == "x" and not t.startswith("io:") else t for k_, t in zip(kinds_, toks[1:-1])] + [toks[-1]])
+        if _norm(h) == _norm(want):
+            n_sess_ok += 1
+            n_sess_msgs += len(want.split()) - 2
+            n_sess_unknown += want.count(" unknown:")
+            n_sess_bad += want.count(" bad@")
+            continue
+        rep.violation(f"C02/{exp}-{d}/session", f"{exp} {d}: one stream of {len(want.split()) - 2} arbitrary messages is not read as the model reads it: library '{h[:300]}', model '{want[:300]}'",
+                      {"session": rq, "stream_hex": hq.split()[-1][:20000], "implementation": h[:2000], "model": want[:2000], "replay_cmd": f"echo '{hq[:20000]}' | {har}"})
     # ---- the encrypted variants of every reader/writer at the header-form boundaries (sequences of two messages)
     ereqs, emeta = [], []
     for exp in EXPS:
@@ -263,10 +328,11 @@ def run(tier, seed):
     rep.coverage = {
         "compressed_message_sequences": n_z, "compressed_frames_above_0x8000": n_z_large,
         "obligations": po["obligations"] + len(CONSTS), "discharged": po["discharged"] + sum(1 for k, v in CONSTS.items() if consts_seen.get(k) == v),
-        "checker_cmd": "cd /verif/lean && lake build WowVerif.Thm.C02 && lake env lean WowVerif/Thm/C02.lean",
+        "checker_cmd": "cd /verif/lean && lake build WowVerif.Thm.C02 WowVerif.Thm.C02b WowVerif.Thm.C02c && lake env lean WowVerif/Thm/C02c.lean",
         "trusted_base": TRUSTED_BASE_COMMON + ["hand transcription of traits/*.rs, util/trait_helpers/*.rs, the header parsing in opcodes.rs and expected.rs (validated by the correspondence)",
                                                "the body codec of *_WARDEN_DATA (u8[-], at most 65535 bytes) is modelled in the driver only for this correspondence"],
         "theorems": po["theorems"], "constants_checked": consts_seen,
+        "sessions": {"streams": len(sreq), "agreeing": n_sess_ok, "messages": n_sess_msgs, "unknown_opcode_frames": n_sess_unknown, "unparsable_bodies": n_sess_bad},
         "builtin_type_messages_written": n_builtin, "evaluations": len(reqs) + len(reads) + len(seqs) + len(ereqs), "encrypted_boundary_sequences": len(ereqs), "distinct_nontrivial": len(set(meta)) + len(set(map(str, smeta))),
         "write_requests": len(reqs), "read_requests": len(reads), "sequences": len(seqs), "writes_violating_property": n_abort,
         "rule": "body lengths 0..300 (thorough 0..2048), +-8 around 0x7FFB 0x7FFF 0x8000 0xFFFB 0xFFFF 0x10003, random lengths, large Wrath server bodies; 3 expansions x 2 directions; "
